@@ -106,8 +106,7 @@ class SumAggregator:
                     and elem.terms[0].symbol.type == SymbolType.Number
                     and elem.terms[0].symbol.number > 0
                 ):
-                    alone = False
-                    continue
+                    return ret
             else:
                 condition = elem
 
